@@ -30,8 +30,20 @@ for s in seeds:
     print(rows[-1], flush=True)
 shutil.rmtree(ROOT + "/evidence")
 shutil.copytree(bak, ROOT + "/evidence")
-with open(ROOT + "/seeded/RESULTS.md", "w") as f:
+# a subset run (names on the command line) replaces / adds its rows and keeps the others
+res_path = ROOT + "/seeded/RESULTS.md"
+if only and os.path.exists(res_path):
+    new = {r[0]: r for r in rows}
+    kept = []
+    for line in open(res_path):
+        if line.startswith("| `"):
+            cells = [c.strip() for c in line.strip().strip("|").split(" | ")]
+            name = cells[0].strip("`")
+            if name not in new and os.path.isdir(ROOT + "/seeded/" + name):
+                kept.append((name, cells[1], cells[2], cells[3], " | ".join(cells[4:]).replace("\\|", "|")))
+    rows = sorted(kept + rows, key=lambda r: r[0])
+with open(res_path, "w") as f:
     f.write("# Seeded changes against the current quick checks\n\nProduced by `tools/seed_all.py` (apply to /repo, `./check <ID> quick`, revert).\n\n| seeded change | property | result | seconds | first report |\n|---|---|---|---|---|\n")
     for r in rows:
-        f.write("| `%s` | %s | %s | %s | %s |\n" % (r[0], r[1], r[2], r[3], r[4].replace("|", "\\|")))
+        f.write("| `%s` | %s | %s | %s | %s |\n" % (r[0], r[1], r[2], r[3], str(r[4]).replace("|", "\\|")))
 print("detected %d / %d" % (sum(1 for r in rows if r[2] == "detected"), len(rows)))
